@@ -37,6 +37,13 @@ impl RFrame {
             peer_id,
         }
     }
+    /// The form in which rdest can represent the frame: it does not keep a handshake's reserved bytes.
+    pub fn norm(&self) -> RFrame {
+        match self {
+            RFrame::Handshake { pstr, info_hash, peer_id, .. } => RFrame::Handshake { pstr: pstr.clone(), reserved: [0; 8], info_hash: *info_hash, peer_id: *peer_id },
+            f => f.clone(),
+        }
+    }
     pub fn kind(&self) -> &'static str {
         match self {
             RFrame::Handshake { .. } => "handshake",
